@@ -179,6 +179,86 @@ func countAlerts(n *SimNet, ep string) (count int, firstIdx int) {
 	return count, firstIdx
 }
 
+// alertDecoder decodes the alerts of an established session whose layout hides them from the
+// wire monitor (tls12_cid records, DTLS 1.3): reference keys from the key log / traffic secrets.
+type alertDecoder struct {
+	ref12 *Ref12
+	dec13 map[string]*Decoder13
+	cid   map[string]int // CID length on records emitted by that endpoint
+}
+
+func newAlertDecoder(pair *Pair, n *SimNet, cspec, sspec EpSpec) *alertDecoder {
+	d := &alertDecoder{cid: map[string]int{"c": len(sspec.CIDOf()), "s": len(cspec.CIDOf())}}
+	if cspec.MaxVer == 13 {
+		cst, ok := pair.Client.ConnectionState()
+		if !ok {
+			return nil
+		}
+		cw, _ := dtls.VerifTrafficSecrets(pair.Client)
+		sw, _ := dtls.VerifTrafficSecrets(pair.Server)
+		d.dec13 = map[string]*Decoder13{"c": NewDecoder13(uint16(cst.CipherSuiteID), cw), "s": NewDecoder13(uint16(cst.CipherSuiteID), sw)}
+
+		return d
+	}
+	col := NewHsCollector()
+	for _, em := range n.Emits {
+		col.Feed(em, d.cid[em.Ep])
+	}
+	chs, shs := col.Of("c", HTClientHello), col.Of("s", HTServerHello)
+	if len(chs) == 0 || len(shs) == 0 || pair.Env.KeyLogs == nil || pair.Env.KeyLogs["c"] == nil {
+		return nil
+	}
+	ch, _ := ParseClientHello(chs[len(chs)-1].Body)
+	sh, _ := ParseServerHello(shs[len(shs)-1].Body)
+	ms := pair.Env.KeyLogs["c"].Master(ch.Random)
+	if len(ms) == 0 {
+		return nil
+	}
+	ref, err := NewRef12(sh.Suites[0], ms[len(ms)-1], ch.Random, sh.Random)
+	if err != nil {
+		return nil
+	}
+	if ref.Suite.kind == "cbc" {
+		// the library's MAC over tls12_cid records under CBC suites is not the RFC 9146 one (known
+		// finding F10 under C10): the reference cannot open them, so nothing can be counted
+		return nil
+	}
+	d.ref12 = ref
+
+	return d
+}
+
+// count returns the number of protected alert records ep emitted and the emission index of the first.
+func (d *alertDecoder) count(n *SimNet, ep string) (count int, firstIdx int) {
+	firstIdx = -1
+	for _, em := range n.EmitsOf(ep) {
+		recs, _ := ParseDatagram(em.Data, d.cid[ep])
+		for _, r := range recs {
+			isAlert := false
+			switch {
+			case r.Unified && d.dec13 != nil:
+				if _, ct, _, _, err := d.dec13[ep].Open(r); err == nil && ct == CTAlert {
+					isAlert = true
+				}
+			case !r.Unified && r.Epoch >= 1 && r.Type == CTAlert:
+				isAlert = true
+			case !r.Unified && r.Epoch >= 1 && r.Type == CTCID && d.ref12 != nil:
+				if ct, _, err := d.ref12.Open(ep == "c", r); err == nil && ct == CTAlert {
+					isAlert = true
+				}
+			}
+			if isAlert {
+				count++
+				if firstIdx < 0 {
+					firstIdx = em.Idx
+				}
+			}
+		}
+	}
+
+	return count, firstIdx
+}
+
 func delivered(n *SimNet, fromEpIdx int, to string) bool {
 	for _, d := range n.Deliv {
 		if d.Ep == to && d.EmitIdx == fromEpIdx && !d.Injected {
@@ -215,7 +295,7 @@ func c16Run(rc *RunCtx, params any) {
 	plainAlerts = cspec.MaxVer == 12 && cspec.CIDLen < 0 && sspec.CIDLen < 0
 	rc.Note("proto", protoTag(cspec, sspec))
 	n := NewSimNet(s, p.Rules)
-	pair, err := NewPair(s, n, cspec, sspec, nil)
+	pair, err := NewPair(s, n, cspec, sspec, &Env{KeyLogs: map[string]*KeyLog{}})
 	if err != nil {
 		rc.Violate("harness", "config: %v", err)
 
@@ -399,10 +479,20 @@ func c16Run(rc *RunCtx, params any) {
 				}
 			}
 		}
-		// close_notify accounting where it is visible on the wire
-		if plainAlerts {
+		// close_notify accounting: on the wire where alerts are visible in record headers, through
+		// the reference decoder for connection-ID and DTLS 1.3 layouts of established sessions
+		countFn := func(ep string) (int, int) { return countAlerts(n, ep) }
+		countable := plainAlerts
+		if !plainAlerts && dataPhase && established {
+			if ad := newAlertDecoder(pair, n, cspec, sspec); ad != nil {
+				countFn = func(ep string) (int, int) { return ad.count(n, ep) }
+				countable = true
+				s.Probe("alerts-decoded-by-reference")
+			}
+		}
+		if countable {
 			for _, ep := range targets {
-				cnt, idx := countAlerts(n, ep)
+				cnt, idx := countFn(ep)
 				if cnt > 1 {
 					rc.Violate("close-notify-twice", "%s emitted %d alert records in epoch>=1", ep, cnt)
 					cleanup()
@@ -410,7 +500,7 @@ func c16Run(rc *RunCtx, params any) {
 					return
 				}
 				hsDone := hsOps[ep] != nil && hsOps[ep].Done && hsOps[ep].Err == nil && hsOps[ep].RetAt <= firedAt
-				peerAlerts, _ := countAlerts(n, other[ep])
+				peerAlerts, _ := countFn(other[ep])
 				if hsDone && !peerClosedFirst[ep] && peerAlerts == 0 && !p.Stall && cnt != 1 {
 					rc.Violate("close-notify-missing", "%s: application Close() of an established, still-open session emitted %d close_notify (pre-close deadline state %q)", ep, cnt, p.Pre)
 					cleanup()
